@@ -4,7 +4,7 @@
  *   prog0 is executed by the main thread, prog<u> by a Cello Thread created by `S<u>` in prog0.
  *   tokens:  a0 a1  u<i>  c  s<k>,<v>  g<k>  m<k>  r<k>  e<v>  w<k>,<n>  o  y  t<e>
  *            [ body ]<e>,<e> handler }      try { body } catch (x in e,e) { handler }   (0..2 classes)
- *            L<m> U<m> T<m>  W<m>( body )  i<m>     S<t> J<t> P<t>
+ *            L<m> U<m> T<m>  W<m>( body )  Q<m>( body )  i<m>     S<t> J<t> P<t>     (Q: if (trylock) { body; unlock })
  *   <sched> only seeds the yield injection here (the kernel decides the real schedule).
  * Transcript:
  *   A: t1:<events> / t2:<events> ...          every worker program run ALONE (one thread at a time)
@@ -63,6 +63,7 @@ static var mx[MAXM];
 static volatile long cell[MAXM];
 static volatile int inside[MAXM];
 static volatile int insec[MAXM];
+static int n_qskip;
 static int n_overlap, n_miss, n_cross, n_double, n_rootkill, n_stale, n_running, n_maxpar;
 static int nthreads, nmutex;
 static var* thr;             /* the Thread objects: an array in the main thread's frame (a root of its collector) */
@@ -161,7 +162,7 @@ static struct Node* parse_block(char** s, int stop, char** stoptok) {
         n->handler = parse_block(s, '}', NULL);
         break;
       }
-      case 'W': n->a = atol(arg); n->body = parse_block(s, ')', NULL); break;
+      case 'W': case 'Q': n->a = atol(arg); n->body = parse_block(s, ')', NULL); break;
       default: n->a = atol(arg);
     }
     *tail = n; tail = &n->next;
@@ -334,6 +335,16 @@ static void exec_node(struct TCtx* c, struct Node* n) {
         leave_section(n->a);
       }
       break;
+    case 'Q':      /* try once: enter the section only if the mutex is free right now */
+      if (trylock(mx[n->a])) {
+        enter_section(n->a);
+        exec_block(c, n->body);
+        leave_section(n->a);
+        unlock(mx[n->a]);
+      } else {
+        __sync_fetch_and_add(&n_qskip, 1);
+      }
+      break;
     case 'i': {
       long m = n->a;
       if (insec[m]) __sync_fetch_and_add(&n_overlap, 1);
@@ -476,7 +487,7 @@ static void one_case(char* line) {
   /* ---- phase C: all together */
   cur_phase = 1;
   for (int m = 0; m < MAXM; m++) { cell[m] = 0; inside[m] = 0; insec[m] = 0; }
-  n_running = 0; n_maxpar = 0; n_miss = 0;
+  n_running = 0; n_maxpar = 0; n_miss = 0; n_qskip = 0;
   for (int t = 0; t < nthreads; t++) {
     struct TCtx* c = &ctx[1][t];
     memset(c, 0, sizeof *c);
@@ -511,8 +522,8 @@ static void one_case(char* line) {
     for (int t = 0; t < nthreads; t++) sum += ctx[1][t].incs[m];
     if (sum != cell[m]) ln += (size_t)snprintf(lost + ln, sizeof lost - ln, "%sc%d:%ld-of-%ld", ln ? "," : "", m, cell[m], sum);
   }
-  P(" ## X: lost=%s overlap=%d miss=%d maxpar=%d cross=%d double=%d unfin=%d rootkill=%d stale=%d unjoined=%d",
-    ln ? lost : "0", n_overlap + a_overlap * 0, n_miss, n_maxpar, n_cross, n_double, unfin, n_rootkill, n_stale, unjoined);
+  P(" ## X: qskip=%d lost=%s overlap=%d miss=%d maxpar=%d cross=%d double=%d unfin=%d rootkill=%d stale=%d unjoined=%d",
+    n_qskip, ln ? lost : "0", n_overlap + a_overlap * 0, n_miss, n_maxpar, n_cross, n_double, unfin, n_rootkill, n_stale, unjoined);
 }
 
 int main(int argc, char** argv) {
